@@ -1,17 +1,19 @@
-// placement: core/task/scheduler.go — the two port cut-offs of makeTaskForMesosResources that the
-// C05 model (coq/model/Placement.v) is parameterised by:
+// placement: package core/task — the two port cut-offs of makeTaskForMesosResources that the C05
+// model (coq/model/Placement.v) is parameterised by:
 //   - the upper end of the range removed before a dynamic (inbound TCP channel) port is picked
 //     (`availPorts.Remove(mesos.Value_Range{Begin: 0, End: 8999})` inside the loop over
 //     wants.InboundChannels),
 //   - the upper end of the range removed before the control port is picked (... End: 29999).
-// It also checks the skeleton the model takes for granted and fails when it is not found (since the
-// repairs C05-c/d/f/g: four Subtract calls, an emptiness guard before each Min(), the offer leaves
-// the decline set after the last give-up): exactly
-// two such Remove calls, both starting at 0, the first one inside the channel loop and the second
-// one after it, each followed by a `.Min()` pick, and exactly two
-// `remainingResourcesInOffer.Subtract(...)` calls (one per pick: static ranges, cpu and memory are
-// not subtracted from the remaining offer — the model says so, and the known findings C05-c/C05-d
-// rest on it).
+// It also checks the skeleton the model takes for granted and fails when it is not found. The
+// function is read as a SEQUENCE OF EVENTS in evaluation order, with calls to functions and methods
+// of the same package followed (three levels deep, parameters bound to the arguments), so that
+// extracting helpers, naming constants, hoisting sub-expressions into locals, renaming locals,
+// receivers and parameters, moving functions between the files of the package, changing loop forms,
+// if/else <-> switch <-> early return and keyed <-> positional literals leave the result alone:
+//   subtract (static ranges) before the channel loop;
+//   in the channel loop: remove 0..k1, emptiness guard, Min(), subtract;
+//   after it: remove 0..k2, emptiness guard, Min(), subtract (control port), subtract (request);
+//   the offer leaves the decline set (delete) after the last `return nil, ...` of the function.
 package main
 
 import (
@@ -23,143 +25,670 @@ import (
 
 func init() { translators["placement"] = trPlacement }
 
-func trPlacement() string {
-	fset, f := parseFile("core/task/scheduler.go")
-	fd := findFunc(f, "", "makeTaskForMesosResources")
-	if fd == nil || fd.Body == nil {
-		die("placement: func makeTaskForMesosResources not found in core/task/scheduler.go")
-	}
-	// the loop over wants.InboundChannels
-	var loop *ast.RangeStmt
-	ast.Inspect(fd.Body, func(n ast.Node) bool {
-		if rs, ok := n.(*ast.RangeStmt); ok && loop == nil {
-			if sel, ok := rs.X.(*ast.SelectorExpr); ok && sel.Sel.Name == "InboundChannels" {
-				loop = rs
-			}
+// ---------------------------------------------------------------- event walker
+
+type plEvent struct {
+	kind   string // sub | remove | guard | min | delete | giveup | wants | wantsStore
+	val    int64
+	inChan bool // inside a loop over ...InboundChannels
+	inLoop bool // inside any for / range statement
+	pos    token.Pos
+}
+
+type plEnv struct {
+	vals   map[string]ast.Expr // parameters bound to arguments, or single-assignment locals
+	args   bool                // vals are arguments: they are expressions of the parent scope
+	parent *plEnv
+}
+
+func (e *plEnv) lookup(n string) (ast.Expr, *plEnv, bool) {
+	for ; e != nil; e = e.parent {
+		if v, ok := e.vals[n]; ok {
+			return v, e, true
 		}
-		return true
-	})
-	if loop == nil {
-		die("placement: loop over wants.InboundChannels not found")
 	}
-	type rem struct {
-		pos        token.Pos
-		begin, end int64
-	}
-	var removes []rem
-	mins, subtracts := 0, 0
-	var subtractPos []token.Pos
-	guards := 0
-	var deletePos, lastGiveUp token.Pos
-	ast.Inspect(fd.Body, func(n ast.Node) bool {
-		switch x := n.(type) {
-		case *ast.IfStmt: // if len(availPorts) == 0 { return nil, nil }
-			if be, ok := x.Cond.(*ast.BinaryExpr); ok && be.Op == token.EQL {
-				if ce, ok := be.X.(*ast.CallExpr); ok && len(ce.Args) == 1 {
-					fn, _ := ce.Fun.(*ast.Ident)
-					arg, _ := ce.Args[0].(*ast.Ident)
-					if v, isInt := intLit(be.Y); fn != nil && fn.Name == "len" && arg != nil && arg.Name == "availPorts" && isInt && v == 0 {
-						if len(x.Body.List) == 1 {
-							if _, isRet := x.Body.List[0].(*ast.ReturnStmt); isRet {
-								guards++
-							}
-						}
+	return nil, nil, false
+}
+
+type plWalk struct {
+	pkg    *symPkg
+	events []plEvent
+}
+
+// resolve follows identifiers through parameters, single-assignment locals, package constants,
+// parentheses and conversions
+func (w *plWalk) resolve(e ast.Expr, env *plEnv, fuel int) ast.Expr {
+	for ; fuel > 0; fuel-- {
+		switch x := e.(type) {
+		case *ast.ParenExpr:
+			e = x.X
+		case *ast.Ident:
+			if v, venv, ok := env.lookup(x.Name); ok {
+				// a local is resolved in the scope it was defined in, an argument in the caller's
+				e, env = v, venv
+				if id, same := v.(*ast.Ident); venv.args || (same && id.Name == x.Name) {
+					env = venv.parent
+				}
+				continue
+			}
+			if v, ok := w.pkg.consts[x.Name]; ok {
+				e = v
+				continue
+			}
+			return e
+		case *ast.CallExpr: // conversion T(x)
+			if len(x.Args) == 1 {
+				switch f := x.Fun.(type) {
+				case *ast.Ident:
+					if strings.HasPrefix(f.Name, "uint") || strings.HasPrefix(f.Name, "int") {
+						e = x.Args[0]
+						continue
 					}
 				}
 			}
-		case *ast.ReturnStmt:
-			if len(x.Results) == 2 {
-				if id, ok := x.Results[0].(*ast.Ident); ok && id.Name == "nil" && x.Pos() > lastGiveUp {
-					lastGiveUp = x.Pos()
+			return e
+		default:
+			return e
+		}
+	}
+	return e
+}
+
+// intOf evaluates an integer constant expression (literals, named constants, parameters bound to
+// such, + - * / << of them)
+func (w *plWalk) intOf(e ast.Expr, env *plEnv) (int64, bool) { return w.evalInt(e, env, 6) }
+
+func (w *plWalk) evalInt(e ast.Expr, env *plEnv, fuel int) (int64, bool) {
+	if fuel == 0 {
+		return 0, false
+	}
+	// resolve one identifier at a time so that the scope of the value is kept
+	switch x := e.(type) {
+	case *ast.ParenExpr:
+		return w.evalInt(x.X, env, fuel)
+	case *ast.BasicLit, *ast.UnaryExpr:
+		if v, ok := intLit(e); ok {
+			return v, true
+		}
+		if u, ok := e.(*ast.UnaryExpr); ok && u.Op == token.SUB {
+			v, ok := w.evalInt(u.X, env, fuel-1)
+			return -v, ok
+		}
+		return 0, false
+	case *ast.BinaryExpr:
+		l, ok1 := w.evalInt(x.X, env, fuel-1)
+		r, ok2 := w.evalInt(x.Y, env, fuel-1)
+		if !ok1 || !ok2 {
+			return 0, false
+		}
+		switch x.Op {
+		case token.ADD:
+			return l + r, true
+		case token.SUB:
+			return l - r, true
+		case token.MUL:
+			return l * r, true
+		case token.QUO:
+			if r != 0 {
+				return l / r, true
+			}
+		case token.SHL:
+			if r >= 0 && r < 62 {
+				return l << uint(r), true
+			}
+		}
+		return 0, false
+	case *ast.Ident:
+		if v, venv, ok := env.lookup(x.Name); ok {
+			next := venv
+			if id, same := v.(*ast.Ident); venv.args || (same && id.Name == x.Name) {
+				next = venv.parent
+			}
+			return w.evalInt(v, next, fuel-1)
+		}
+		if v, ok := w.pkg.consts[x.Name]; ok {
+			return w.evalInt(v, nil, fuel-1)
+		}
+		return 0, false
+	case *ast.CallExpr: // conversion
+		if id, ok := x.Fun.(*ast.Ident); ok && len(x.Args) == 1 && (strings.HasPrefix(id.Name, "uint") || strings.HasPrefix(id.Name, "int")) {
+			return w.evalInt(x.Args[0], env, fuel-1)
+		}
+	}
+	return 0, false
+}
+
+// mentionsChannels: the expression is, or resolves to, something ending in .InboundChannels
+func (w *plWalk) mentionsChannels(e ast.Expr, env *plEnv) bool {
+	found := false
+	ast.Inspect(e, func(n ast.Node) bool {
+		switch x := n.(type) {
+		case *ast.SelectorExpr:
+			if x.Sel.Name == "InboundChannels" {
+				found = true
+			}
+		case *ast.Ident:
+			if r := w.resolve(x, env, 6); r != ast.Expr(x) {
+				if sel, ok := r.(*ast.SelectorExpr); ok && sel.Sel.Name == "InboundChannels" {
+					found = true
 				}
 			}
 		}
-		c, ok := n.(*ast.CallExpr)
+		return !found
+	})
+	return found
+}
+
+// emptinessTest: len(x) == 0, 0 == len(x), len(x) < 1, len(x) <= 0 (empty) or the negations
+// len(x) > 0, len(x) != 0, len(x) >= 1 (also inside && / || / !)
+func emptinessTest(e ast.Expr) bool {
+	found := false
+	ast.Inspect(e, func(n ast.Node) bool {
+		be, ok := n.(*ast.BinaryExpr)
 		if !ok {
 			return true
 		}
-		if id, ok := c.Fun.(*ast.Ident); ok && id.Name == "delete" && len(c.Args) == 2 {
-			if a0, ok := c.Args[0].(*ast.Ident); ok && a0.Name == "offerIDsToDecline" {
-				deletePos = c.Pos()
+		isLen := func(x ast.Expr) bool {
+			c, ok := x.(*ast.CallExpr)
+			if !ok || len(c.Args) != 1 {
+				return false
+			}
+			id, ok := c.Fun.(*ast.Ident)
+			return ok && id.Name == "len"
+		}
+		small := func(x ast.Expr) bool { v, ok := intLit(x); return ok && (v == 0 || v == 1) }
+		switch be.Op {
+		case token.EQL, token.NEQ, token.LSS, token.LEQ, token.GTR, token.GEQ:
+			if (isLen(be.X) && small(be.Y)) || (small(be.X) && isLen(be.Y)) {
+				found = true
 			}
 		}
-		sel, ok := c.Fun.(*ast.SelectorExpr)
+		return !found
+	})
+	return found
+}
+
+type plCtx struct {
+	env     *plEnv
+	inChan  bool
+	inLoop  bool
+	depth   int  // inlining depth
+	funcLit int  // inside a function literal of the function under inspection
+	recv    string
+}
+
+func (w *plWalk) emit(kind string, val int64, c plCtx, pos token.Pos) {
+	w.events = append(w.events, plEvent{kind: kind, val: val, inChan: c.inChan, inLoop: c.inLoop, pos: pos})
+}
+
+// rangeLit reads mesos.Value_Range{Begin: b, End: e} / {b, e}
+func (w *plWalk) rangeLit(e ast.Expr, c plCtx) (begin, end int64, ok bool) {
+	cl, isLit := w.resolve(e, c.env, 12).(*ast.CompositeLit)
+	if !isLit || cl.Type == nil || !mentionsIdent(cl.Type, "Value_Range") {
+		return 0, 0, false
+	}
+	ok = true
+	defer func() {
 		if !ok {
-			return true
+			die("placement: the bounds of the Value_Range given to Remove at %s cannot be resolved to literals", w.pkg.fset.Position(e.Pos()))
 		}
-		switch sel.Sel.Name {
-		case "Remove":
-			if len(c.Args) != 1 {
-				die("placement: Remove with %d arguments", len(c.Args))
+	}()
+	begin, end = -1, -1
+	for i, el := range cl.Elts {
+		if kv, keyed := el.(*ast.KeyValueExpr); keyed {
+			k, _ := kv.Key.(*ast.Ident)
+			v, vok := w.intOf(kv.Value, c.env)
+			if k == nil || !vok {
+				ok = false
+				return
 			}
-			cl, ok := c.Args[0].(*ast.CompositeLit)
-			if !ok {
-				die("placement: Remove argument is not a Value_Range literal")
+			switch k.Name {
+			case "Begin":
+				begin = v
+			case "End":
+				end = v
 			}
-			r := rem{pos: c.Pos(), begin: -1, end: -1}
-			for _, el := range cl.Elts {
-				kv, ok := el.(*ast.KeyValueExpr)
-				if !ok {
-					die("placement: Value_Range literal without field names")
+		} else {
+			v, vok := w.intOf(el, c.env)
+			if !vok {
+				ok = false
+				return
+			}
+			if i == 0 {
+				begin = v
+			} else if i == 1 {
+				end = v
+			}
+		}
+	}
+	if begin == -1 && len(cl.Elts) < 2 {
+		begin = 0 // Begin omitted: zero value
+	}
+	ok = end >= 0
+	return
+}
+
+func (w *plWalk) stmts(l []ast.Stmt, c plCtx) {
+	for _, s := range l {
+		w.node(s, c)
+	}
+}
+
+// node walks statements and expressions in evaluation order (operands before the call they feed)
+func (w *plWalk) node(n ast.Node, c plCtx) {
+	switch x := n.(type) {
+	case nil:
+		return
+	case *ast.BlockStmt:
+		if x != nil {
+			w.stmts(x.List, c)
+		}
+	case *ast.IfStmt:
+		w.node(x.Init, c)
+		w.node(x.Cond, c)
+		if emptinessTest(x.Cond) {
+			w.emit("guard", 0, c, x.Pos())
+		}
+		w.node(x.Body, c)
+		w.node(x.Else, c)
+	case *ast.SwitchStmt:
+		w.node(x.Init, c)
+		w.node(x.Tag, c)
+		for _, cc := range x.Body.List {
+			cl := cc.(*ast.CaseClause)
+			for _, e := range cl.List {
+				w.node(e, c)
+				if x.Tag == nil && emptinessTest(e) {
+					w.emit("guard", 0, c, e.Pos())
 				}
-				k, _ := kv.Key.(*ast.Ident)
-				v, ok := intLit(kv.Value)
-				if k == nil || !ok {
-					die("placement: Value_Range literal with a non-literal bound")
+			}
+			w.stmts(cl.Body, c)
+		}
+	case *ast.TypeSwitchStmt:
+		w.node(x.Init, c)
+		w.node(x.Assign, c)
+		w.node(x.Body, c)
+	case *ast.CaseClause:
+		for _, e := range x.List {
+			w.node(e, c)
+		}
+		w.stmts(x.Body, c)
+	case *ast.ForStmt:
+		w.node(x.Init, c)
+		c2 := c
+		c2.inLoop = true
+		if x.Cond != nil && w.mentionsChannels(x.Cond, c.env) {
+			c2.inChan = true
+		}
+		w.node(x.Cond, c2)
+		w.node(x.Body, c2)
+		w.node(x.Post, c2)
+	case *ast.RangeStmt:
+		w.node(x.X, c)
+		c2 := c
+		c2.inLoop = true
+		if w.mentionsChannels(x.X, c.env) {
+			c2.inChan = true
+		}
+		w.node(x.Body, c2)
+	case *ast.ReturnStmt:
+		for _, r := range x.Results {
+			w.node(r, c)
+		}
+		if c.depth == 0 && c.funcLit == 0 && len(x.Results) >= 1 {
+			if id, ok := x.Results[0].(*ast.Ident); ok && id.Name == "nil" {
+				w.emit("giveup", 0, c, x.Pos())
+			}
+		}
+	case *ast.ExprStmt:
+		w.node(x.X, c)
+	case *ast.AssignStmt:
+		for _, r := range x.Rhs {
+			w.node(r, c)
+		}
+		for _, l := range x.Lhs {
+			if ie, ok := l.(*ast.IndexExpr); ok { // container[key] = value
+				w.node(ie.Index, c)
+				for _, r := range x.Rhs {
+					if w.isWants(r, c) {
+						w.emit("wantsStore", 0, c, x.Pos())
+					}
 				}
-				switch k.Name {
-				case "Begin":
-					r.begin = v
-				case "End":
-					r.end = v
+			}
+		}
+	case *ast.DeclStmt:
+		if gd, ok := x.Decl.(*ast.GenDecl); ok {
+			for _, sp := range gd.Specs {
+				if vs, ok := sp.(*ast.ValueSpec); ok {
+					w.typeExpr(vs.Type, c)
+					for _, v := range vs.Values {
+						w.node(v, c)
+					}
 				}
 			}
-			if r.begin != 0 || r.end < 0 {
-				die("placement: Remove range is not {Begin: 0, End: <literal>} (got %d..%d)", r.begin, r.end)
+		}
+	case *ast.GoStmt:
+		w.node(x.Call, c)
+	case *ast.DeferStmt:
+		w.node(x.Call, c)
+	case *ast.LabeledStmt:
+		w.node(x.Stmt, c)
+	case *ast.IncDecStmt:
+		w.node(x.X, c)
+	case *ast.SendStmt:
+		w.node(x.Chan, c)
+		w.node(x.Value, c)
+	case *ast.SelectStmt:
+		w.node(x.Body, c)
+	case *ast.CommClause:
+		w.node(x.Comm, c)
+		w.stmts(x.Body, c)
+	case *ast.FuncLit:
+		c2 := c
+		c2.funcLit++
+		c2.env = &plEnv{vals: localsOf(x.Body), parent: c.env}
+		w.node(x.Body, c2)
+	case *ast.CallExpr:
+		w.call(x, c)
+	case *ast.ParenExpr:
+		w.node(x.X, c)
+	case *ast.UnaryExpr:
+		w.node(x.X, c)
+	case *ast.StarExpr:
+		w.node(x.X, c)
+	case *ast.BinaryExpr:
+		w.node(x.X, c)
+		w.node(x.Y, c)
+	case *ast.SelectorExpr:
+		w.node(x.X, c)
+	case *ast.IndexExpr:
+		w.node(x.X, c)
+		w.node(x.Index, c)
+	case *ast.SliceExpr:
+		w.node(x.X, c)
+	case *ast.KeyValueExpr:
+		w.node(x.Value, c)
+	case *ast.CompositeLit:
+		w.typeExpr(x.Type, c)
+		for _, e := range x.Elts {
+			w.node(e, c)
+		}
+	case *ast.TypeAssertExpr:
+		w.node(x.X, c)
+	}
+}
+
+// typeExpr: a container type whose elements are Wants is a cache shared between descriptors
+func (w *plWalk) typeExpr(t ast.Expr, c plCtx) {
+	if t == nil {
+		return
+	}
+	ast.Inspect(t, func(n ast.Node) bool {
+		switch x := n.(type) {
+		case *ast.MapType:
+			if mentionsIdent(x.Value, "Wants") || mentionsIdent(x.Key, "Wants") {
+				w.emit("wantsStore", 0, c, x.Pos())
 			}
-			removes = append(removes, r)
-		case "Min":
-			if id, ok := sel.X.(*ast.Ident); ok && id.Name == "availPorts" {
-				mins++
-			}
-		case "Subtract":
-			if id, ok := sel.X.(*ast.Ident); ok && id.Name == "remainingResourcesInOffer" {
-				subtracts++
-				subtractPos = append(subtractPos, c.Pos())
+		case *ast.ArrayType:
+			if mentionsIdent(x.Elt, "Wants") {
+				w.emit("wantsStore", 0, c, x.Pos())
 			}
 		}
 		return true
 	})
-	if len(removes) != 2 {
-		die("placement: expected 2 availPorts.Remove calls in makeTaskForMesosResources, found %d", len(removes))
+}
+
+func (w *plWalk) isWants(e ast.Expr, c plCtx) bool {
+	r := w.resolve(e, c.env, 8)
+	if id, ok := r.(*ast.Ident); ok && strings.Contains(strings.ToLower(id.Name), "wants") {
+		return true
 	}
-	in := func(p token.Pos) bool { return p >= loop.Pos() && p <= loop.End() }
-	if !in(removes[0].pos) || in(removes[1].pos) || removes[1].pos < loop.End() {
+	if call, ok := r.(*ast.CallExpr); ok {
+		if sel, ok := call.Fun.(*ast.SelectorExpr); ok && sel.Sel.Name == "GetWantsForDescriptor" {
+			return true
+		}
+	}
+	return false
+}
+
+func (w *plWalk) call(x *ast.CallExpr, c plCtx) {
+	// operands first: receiver chain, then arguments
+	if sel, ok := x.Fun.(*ast.SelectorExpr); ok {
+		w.node(sel.X, c)
+	} else if fl, ok := x.Fun.(*ast.FuncLit); ok {
+		w.node(fl, c) // func(...){...}(...) : the body runs here
+	}
+	for _, a := range x.Args {
+		w.node(a, c)
+	}
+	switch f := x.Fun.(type) {
+	case *ast.Ident:
+		switch f.Name {
+		case "delete":
+			w.emit("delete", 0, c, x.Pos())
+			return
+		case "make", "new":
+			if len(x.Args) > 0 {
+				w.typeExpr(x.Args[0], c)
+			}
+			return
+		}
+	case *ast.SelectorExpr:
+		switch f.Sel.Name {
+		case "Subtract":
+			w.emit("sub", 0, c, x.Pos())
+		case "Remove":
+			if len(x.Args) == 1 {
+				if b, e, ok := w.rangeLit(x.Args[0], c); ok {
+					if b != 0 {
+						die("placement: Remove range does not start at 0 (%d..%d) at %s", b, e, w.pkg.fset.Position(x.Pos()))
+					}
+					w.emit("remove", e, c, x.Pos())
+				}
+			}
+		case "Min":
+			if len(x.Args) == 0 {
+				w.emit("min", 0, c, x.Pos())
+			}
+		case "GetWantsForDescriptor":
+			w.emit("wants", 0, c, x.Pos())
+		}
+	}
+	// follow calls into the package
+	if c.depth >= 3 {
+		return
+	}
+	// a local or parameter holding a function literal / method value
+	if id, ok := x.Fun.(*ast.Ident); ok {
+		if v, venv, found := c.env.lookup(id.Name); found {
+			switch fv := v.(type) {
+			case *ast.FuncLit:
+				c2 := c
+				c2.depth++
+				c2.env = w.bind(fv.Type, nil, x, c, localsOf(fv.Body), venv)
+				w.node(fv.Body, c2)
+				return
+			case *ast.SelectorExpr: // method value: f := recv.method
+				x2 := *x
+				x2.Fun = fv
+				if fd := w.pkg.callee(&x2, c.recv); fd != nil {
+					w.inline(fd, &x2, c)
+				}
+				return
+			}
+		}
+	}
+	// unexported functions and methods of the package are followed; exported ones are the
+	// package's interface (GetWantsForDescriptor, Satisfy, ...) and stay events of their own
+	if fd := w.pkg.callee(x, c.recv); fd != nil && !ast.IsExported(fd.Name.Name) {
+		w.inline(fd, x, c)
+	}
+}
+
+func (w *plWalk) bind(ft *ast.FuncType, recv *ast.FieldList, call *ast.CallExpr, c plCtx, locals map[string]ast.Expr, parent *plEnv) *plEnv {
+	env := &plEnv{vals: locals, parent: parent}
+	if env.vals == nil {
+		env.vals = map[string]ast.Expr{}
+	}
+	// arguments are resolved in the CALLER's scope: wrap them so that lookup continues there
+	argEnv := &plEnv{vals: map[string]ast.Expr{}, args: true, parent: c.env}
+	i := 0
+	if ft.Params != nil {
+		for _, fl := range ft.Params.List {
+			for _, nm := range fl.Names {
+				if i < len(call.Args) {
+					if id, same := call.Args[i].(*ast.Ident); !(same && id.Name == nm.Name) {
+						argEnv.vals[nm.Name] = call.Args[i]
+					}
+					delete(env.vals, nm.Name)
+				}
+				i++
+			}
+		}
+	}
+	if recv != nil && len(recv.List) == 1 && len(recv.List[0].Names) == 1 {
+		if sel, ok := call.Fun.(*ast.SelectorExpr); ok {
+			nm := recv.List[0].Names[0].Name
+			if id, same := sel.X.(*ast.Ident); !(same && id.Name == nm) {
+				argEnv.vals[nm] = sel.X
+			}
+			delete(env.vals, nm)
+		}
+	}
+	env.parent = argEnv
+	return env
+}
+
+func (w *plWalk) inline(fd *ast.FuncDecl, call *ast.CallExpr, c plCtx) {
+	c2 := c
+	c2.depth++
+	if rt := recvTypeName(fd); rt != "" {
+		c2.recv = rt
+	}
+	c2.env = w.bind(fd.Type, fd.Recv, call, c, localsOf(fd.Body), nil)
+	c2.funcLit = 0
+	w.node(fd.Body, c2)
+}
+
+func (w *plWalk) run(fd *ast.FuncDecl) {
+	c := plCtx{env: &plEnv{vals: localsOf(fd.Body)}, recv: recvTypeName(fd)}
+	w.node(fd.Body, c)
+}
+
+func (w *plWalk) find(recv, name string) *ast.FuncDecl {
+	for _, fd := range w.pkg.funcs[name] {
+		if recvTypeName(fd) == recv {
+			return fd
+		}
+	}
+	return nil
+}
+
+// ---------------------------------------------------------------- the translator
+
+func trPlacement() string {
+	w := &plWalk{pkg: loadSymPkg("core/task")}
+	fd := w.find("", "makeTaskForMesosResources")
+	if fd == nil {
+		die("placement: func makeTaskForMesosResources not found in package core/task")
+	}
+	w.run(fd)
+	pos := func(e plEvent) string { return w.pkg.fset.Position(e.pos).String() }
+	var seq []plEvent // the events that make up the skeleton
+	for _, e := range w.events {
+		switch e.kind {
+		case "sub", "remove", "guard", "min", "delete", "giveup":
+			seq = append(seq, e)
+		case "wantsStore":
+			die("placement: makeTaskForMesosResources keeps Wants in a container at %s", pos(e))
+		}
+	}
+	var removes []int
+	for i, e := range seq {
+		if e.kind == "remove" {
+			removes = append(removes, i)
+		}
+	}
+	if len(removes) != 2 {
+		die("placement: expected 2 Remove(0..k) calls in makeTaskForMesosResources (helpers followed), found %d", len(removes))
+	}
+	if !seq[removes[0]].inChan || seq[removes[1]].inChan {
 		die("placement: expected the first Remove inside the channel loop and the second after it (%s, %s)",
-			fset.Position(removes[0].pos), fset.Position(removes[1].pos))
+			pos(seq[removes[0]]), pos(seq[removes[1]]))
+	}
+	// after each Remove: an emptiness guard, then the Min() pick, then a Subtract, before the next Remove
+	segment := func(from, to int) (guard, min, subAfterMin int) {
+		guard, min = -1, -1
+		for i := from; i < to; i++ {
+			switch seq[i].kind {
+			case "guard":
+				if guard < 0 && min < 0 {
+					guard = i
+				}
+			case "min":
+				if min < 0 {
+					min = i
+				}
+			case "sub":
+				if min >= 0 {
+					subAfterMin++
+				}
+			}
+		}
+		return
+	}
+	mins := 0
+	for _, e := range seq {
+		if e.kind == "min" {
+			mins++
+		}
 	}
 	if mins != 2 {
-		die("placement: expected 2 availPorts.Min() picks, found %d", mins)
+		die("placement: expected 2 Min() picks, found %d", mins)
 	}
-	// static ranges before the channel loop, one per picked port, the complete request at the end
-	if subtracts != 4 || !(subtractPos[0] < loop.Pos()) || !in(subtractPos[1]) || in(subtractPos[2]) || in(subtractPos[3]) {
-		die("placement: expected 4 remainingResourcesInOffer.Subtract calls (static ranges before the channel loop, "+
-			"the dynamic port inside it, the control port and the complete request after it), found %d — "+
-			"the model no longer describes this function", subtracts)
+	g1, m1, s1 := segment(removes[0]+1, removes[1])
+	g2, m2, s2 := segment(removes[1]+1, len(seq))
+	if m1 < 0 || m2 < 0 {
+		die("placement: expected a Min() pick after each Remove")
 	}
-	if guards != 2 {
-		die("placement: expected an `if len(availPorts) == 0 { return ... }` guard before each of the 2 Min() picks, found %d", guards)
+	if g1 < 0 || g2 < 0 {
+		die("placement: expected an emptiness guard (len(..) == 0 -> give up) between each Remove and its Min() pick (%s, %s)",
+			pos(seq[removes[0]]), pos(seq[removes[1]]))
 	}
-	if deletePos == token.NoPos || deletePos < lastGiveUp {
-		die("placement: the offer must leave offerIDsToDecline only after the last `return nil, nil` (delete at %s, last give-up at %s)",
-			fset.Position(deletePos), fset.Position(lastGiveUp))
+	if !seq[m1].inChan || s1 < 1 {
+		die("placement: the port picked inside the channel loop is not subtracted from what is left of the offer")
+	}
+	if s2 < 2 {
+		die("placement: expected the control port and the complete request to be subtracted after the control port pick, found %d Subtract calls — "+
+			"the model no longer describes this function", s2)
+	}
+	staticSub := false
+	for i := 0; i < removes[0]; i++ {
+		if seq[i].kind == "sub" && !seq[i].inChan {
+			staticSub = true
+		}
+	}
+	if !staticSub {
+		die("placement: expected the static port ranges to be subtracted before the channel loop")
+	}
+	del, lastGiveUp := -1, -1
+	for i, e := range seq {
+		if e.kind == "delete" {
+			del = i
+		}
+		if e.kind == "giveup" {
+			lastGiveUp = i
+		}
+	}
+	if del < 0 || del < lastGiveUp {
+		die("placement: the offer must leave the decline set (delete) only after the last `return nil, ...` of makeTaskForMesosResources")
 	}
 	// the matching functions the model treats as values-in, value-out must not write into, alias or
 	// extend what they are given (the class's own constraint list is handed to MergeParent for every
 	// descriptor of that class)
-	checkArgsUntouched("core/task/constraint/constraints.go", "Constraints", "MergeParent")
-	checkArgsUntouched("core/task/constraint/attributes.go", "Attributes", "Satisfy")
-	checkArgsUntouched("core/task/match.go", "Resources", "Satisfy")
+	checkArgsUntouched("core/task/constraint", "Constraints", "MergeParent")
+	checkArgsUntouched("core/task/constraint", "Attributes", "Satisfy")
+	checkArgsUntouched("core/task", "Resources", "Satisfy")
 	// what a descriptor wants depends on the descriptor (role-level binds), not only on its class:
 	// the OFFERS handler must ask GetWantsForDescriptor for the descriptor at hand each time
 	checkWantsPerDescriptor()
@@ -167,9 +696,9 @@ func trPlacement() string {
 	b.WriteString("(* regenerated on every run by harness/cmd/translate (placement) from\n   makeTaskForMesosResources in core/task/scheduler.go *)\n")
 	b.WriteString("From Verif Require Import Common.\nOpen Scope N_scope.\n")
 	fmt.Fprintf(&b, "(* ports 0..data_port_floor are removed before a dynamic (inbound TCP channel) port is picked *)\n")
-	fmt.Fprintf(&b, "Definition data_port_floor : N := %d.\n", removes[0].end)
+	fmt.Fprintf(&b, "Definition data_port_floor : N := %d.\n", seq[removes[0]].val)
 	fmt.Fprintf(&b, "(* ports 0..control_port_floor are removed before the control port is picked *)\n")
-	fmt.Fprintf(&b, "Definition control_port_floor : N := %d.\n", removes[1].end)
+	fmt.Fprintf(&b, "Definition control_port_floor : N := %d.\n", seq[removes[1]].val)
 	return b.String()
 }
 
@@ -200,10 +729,16 @@ func rootIdent(e ast.Expr) *ast.Ident {
 // (x = p, x := p[a:b], also as a result), or (3) hands them to append / copy as the destination.
 // Reading them (range, index, field, passing on as a non-first argument) is fine.
 func checkArgsUntouched(rel, recv, name string) {
-	fset, f := parseFile(rel)
-	fd := findFunc(f, recv, name)
+	pkg := loadSymPkg(rel)
+	fset := pkg.fset
+	var fd *ast.FuncDecl
+	for _, d := range pkg.funcs[name] {
+		if recvTypeName(d) == recv {
+			fd = d
+		}
+	}
 	if fd == nil || fd.Body == nil {
-		die("placement: method %s.%s not found in %s", recv, name, rel)
+		die("placement: method %s.%s not found in package %s", recv, name, rel)
 	}
 	params := map[string]bool{}
 	if fd.Recv != nil {
@@ -285,48 +820,35 @@ func mentionsIdent(e ast.Expr, name string) bool {
 	return found
 }
 
-// checkWantsPerDescriptor fails the run when resourceOffers keeps Wants / constraint lists in a
-// container of its own (a map or slice whose element type mentions Wants: a cache shared between
-// descriptors), or no longer calls GetWantsForDescriptor inside the descriptor loops (a for
-// statement), or calls it from a function literal other than the per-offer goroutine bodies that
-// contain those loops.
+// checkWantsPerDescriptor fails the run when resourceOffers (helpers and goroutine bodies followed)
+// keeps Wants in a container of its own (a map or slice type whose elements mention Wants, or a
+// wants value stored under an index: a cache shared between descriptors), or no longer calls
+// GetWantsForDescriptor inside a loop (the descriptor loops).
 func checkWantsPerDescriptor() {
-	fset, f := parseFile("core/task/scheduler.go")
-	fd := findFunc(f, "schedulerState", "resourceOffers")
-	if fd == nil || fd.Body == nil {
-		die("placement: method schedulerState.resourceOffers not found")
+	w := &plWalk{pkg: loadSymPkg("core/task")}
+	fd := w.find("schedulerState", "resourceOffers")
+	if fd == nil {
+		for _, d := range w.pkg.funcs["resourceOffers"] {
+			fd = d
+		}
 	}
-	var loops []*ast.ForStmt
+	if fd == nil {
+		die("placement: method resourceOffers not found in package core/task")
+	}
+	w.run(fd)
 	calls := 0
-	ast.Inspect(fd.Body, func(n ast.Node) bool {
-		switch x := n.(type) {
-		case *ast.MapType:
-			if mentionsIdent(x.Value, "Wants") || mentionsIdent(x.Key, "Wants") {
-				die("placement: resourceOffers keeps Wants in a map at %s - wants belong to a descriptor (role-level binds), "+
-					"the model computes them per descriptor", fset.Position(x.Pos()))
-			}
-		case *ast.ArrayType:
-			if mentionsIdent(x.Elt, "Wants") {
-				die("placement: resourceOffers keeps Wants in a slice at %s - the model computes them per descriptor", fset.Position(x.Pos()))
-			}
-		case *ast.ForStmt:
-			loops = append(loops, x)
-		case *ast.CallExpr:
-			if sel, ok := x.Fun.(*ast.SelectorExpr); ok && sel.Sel.Name == "GetWantsForDescriptor" {
-				calls++
-				inLoop := false
-				for _, l := range loops {
-					if x.Pos() >= l.Body.Pos() && x.End() <= l.Body.End() {
-						inLoop = true
-					}
-				}
-				if !inLoop {
-					die("placement: GetWantsForDescriptor is called outside the descriptor loops of resourceOffers at %s", fset.Position(x.Pos()))
-				}
+	for _, e := range w.events {
+		switch e.kind {
+		case "wantsStore":
+			die("placement: resourceOffers keeps Wants in a container at %s - wants belong to a descriptor (role-level binds), "+
+				"the model computes them per descriptor", w.pkg.fset.Position(e.pos))
+		case "wants":
+			calls++
+			if !e.inLoop {
+				die("placement: GetWantsForDescriptor is called outside the descriptor loops of resourceOffers at %s", w.pkg.fset.Position(e.pos))
 			}
 		}
-		return true
-	})
+	}
 	if calls == 0 {
 		die("placement: resourceOffers no longer calls GetWantsForDescriptor")
 	}
